@@ -1,0 +1,49 @@
+//go:build verif && (verif_all || verif_c07)
+// +build verif
+// +build verif_all verif_c07
+
+package gocql
+
+// Verification hooks for C07 (frames are written whole), writer-level scheduling tier: the real writers of a
+// connection (no Conn) over a transport supplied by the harness, with the coalescer's flush timer fired by the
+// harness instead of by time, so that the SHUTDOWN leg of both writers (quit closes while requests are waiting /
+// enqueued / inside a flush) can be conducted event by event. Add-only; nothing here is reachable without the
+// build tags.
+
+import "time"
+
+// VerifNewManualWriter is VerifNewWriter (verif_export_c07c.go) with a manual flush timer: deadlineContextWriter
+// built like NewConn builds it (coalesce == false), or a writeCoalescer with the fields newWriteCoalescer sets whose
+// flusher goroutine runs the real writeFlusherImpl / flush on a timer channel fed by tick (exactly as
+// VerifManualCoalescer does for an established Conn). tick() reports false when the flusher is not at its select
+// (a flush is in progress or the flusher has returned). flusherDone is closed when writeFlusherImpl returns
+// (nil for the direct writer). The quit channel is closed by (*VerifWriter).Quit.
+func VerifNewManualWriter(conn VerifDeadlineWriter, coalesce bool, writeTimeout time.Duration) (v *VerifWriter, tick func() bool, flusherDone <-chan struct{}) {
+	quit := make(chan struct{})
+	v = &VerifWriter{quit: quit}
+	if !coalesce {
+		v.w = &deadlineContextWriter{w: conn, timeout: writeTimeout, semaphore: make(chan struct{}, 1), quit: quit}
+		return v, func() bool { return false }, nil
+	}
+	timerC := make(chan time.Time)
+	wc := &writeCoalescer{
+		writeCh: make(chan writeRequest),
+		c:       conn,
+		quit:    quit,
+		timeout: writeTimeout,
+	}
+	done := make(chan struct{})
+	go func() {
+		defer close(done)
+		wc.writeFlusherImpl(timerC, func() {})
+	}()
+	v.w = wc
+	return v, func() bool {
+		select {
+		case timerC <- time.Now():
+			return true
+		default:
+			return false
+		}
+	}, done
+}
